@@ -316,12 +316,12 @@ def canon(e, env):
             for x_, y_, nx in ((a, b, peel(e['ch'][0])), (b, a, peel(e['ch'][1]))):
                 if nx.get('k') == 'Path' and nx.get('res') != 'local' and \
                         re.fullmatch(r'(\w+::)+[A-Z]\w*', x_) and not x_.endswith(NULLS):
-                    p_ = '%s is %s' % (y_, x_)
+                    p_ = _cmp_relation(y_, x_) or '%s is %s' % (y_, x_)
                     return p_ if op == '==' else _neg(p_)
                 if nx.get('k') == 'Call' and re.fullmatch(r'Some\((\w+::)+[A-Z]\w*\)', x_) and \
                         peel(nx['ch'][1]).get('k') == 'Path' and peel(nx['ch'][1]).get('res') != 'local':
-                    p_ = '%s is %s' % (y_, x_)
-                    return p_ if op == '==' else '!' + p_
+                    p_ = _cmp_relation(y_, x_) or '%s is %s' % (y_, x_)
+                    return p_ if op == '==' else _neg(p_)
         if op in ('>', '>='):
             a, b, op = b, a, {'>': '<', '>=': '<='}[op]
         if op in ('==', '!=', '+', '*') and b < a:
